@@ -11,6 +11,8 @@
 (* formula spells out), uses (the defined names each formula uses).         *)
 (*   SetLanguage   : vals, stored, names, cfs unchanged                      *)
 (*   SetLocale     : vals_nl, stored, names, cfs unchanged                   *)
+(*   Reparse       : reading everything stored again right after a switch    *)
+(*                   changes nothing                                         *)
 (*   Retype        : stored, vals unchanged (shown content typed back)       *)
 (*   RenameSheet   : vals_ns unchanged; refs and names follow the rename     *)
 (*   MoveSheet     : vals_ns, refs, names unchanged                          *)
